@@ -956,6 +956,7 @@ struct ThreadOut {
     /// code, and how many instructions were looked at
     unlocked_generated: u32,
     stepped: u32,
+    stepped_generated: u32,
     build: Outcome,
     solo: Outcome,
     conc: Outcome,
@@ -1107,6 +1108,7 @@ fn worker(me: usize, spec: &ExecSpec, region: (usize, usize), out: &mut ThreadOu
     sim().step_mode[me] = false;
     out.unlocked_generated = sim().unlocked_generated[me];
     out.stepped = sim().stepped[me];
+    out.stepped_generated = sim().stepped_generated[me];
     finish(me);
     // ---- phase: concurrent ----
     wait_baton(me as i32);
@@ -1141,7 +1143,7 @@ fn run_scenario_inner(sc: &Scenario, rng: &mut Rng) -> RunOutput {
     s.state = [0; MAXT];
     s.active = false;
     let region = (s.prog_view as usize, sc.region_len);
-    let mut outs: Vec<ThreadOut> = (0..n).map(|_| ThreadOut { unlocked_generated: 0, stepped: 0, build: Outcome::Ok(0), solo: Outcome::Ok(0), conc: Outcome::Ok(0) }).collect();
+    let mut outs: Vec<ThreadOut> = (0..n).map(|_| ThreadOut { unlocked_generated: 0, stepped: 0, stepped_generated: 0, build: Outcome::Ok(0), solo: Outcome::Ok(0), conc: Outcome::Ok(0) }).collect();
     let mut solo: Vec<PassResult> = Vec::new();
     let mut conc = PassResult { events: Vec::new(), effective: Vec::new(), switches: 0, final_page: Vec::new(), overflow: false };
     pass_baton(CTRL);
@@ -1662,6 +1664,10 @@ fn summarise(sc: &Scenario, out: &RunOutput, st: &mut Stats) -> (u64, u64, bool)
         if out.outs[i].stepped > 0 {
             st.inc("executions_single_stepped_throughout", 1);
             st.inc("instructions_looked_at_while_single_stepping", out.outs[i].stepped as u64);
+            st.inc("instructions_decoded_inside_generated_code", out.outs[i].stepped_generated as u64);
+            if out.outs[i].stepped_generated == 0 {
+                st.inc("single_stepped_executions_that_never_entered_generated_code", 1);
+            }
         }
         if matches!(out.outs[i].solo, Outcome::Signal(s) if s == sched::RUNAWAY) {
             st.inc("runaway_executions_ended_by_budget", 1);
